@@ -539,46 +539,50 @@ func runsTemplateCode(p *Prog, ci ssa.CallInstruction, depth int) bool {
 // ruleMacroBindAll: every declared macro parameter gets an entry in the macro context on every call.
 func ruleMacroBindAll(p *Prog, ma *macroAnchors, r *Report, rule string) {
 	r.Begin(rule, "every declared parameter is bound in the macro context on every call (default value, or nil when there is none), so it shadows outer names", 1)
-	for _, f := range ma.bodies {
+	for _, body := range ma.bodies {
 		found := false
-		for _, b := range f.Blocks {
-			for _, in := range b.Instrs {
-				rg, ok := in.(*ssa.Range)
-				if !ok || !loadsField(rg.X, "tagMacroNode", "args") {
-					continue
-				}
-				found = true
-				var next *ssa.Next
-				for _, u := range refs(rg) {
-					if nx, ok := u.(*ssa.Next); ok {
-						next = nx
+		f := body
+		for _, fn := range clusterOf(p, body, 2) {
+			f = fn
+			for _, b := range f.Blocks {
+				for _, in := range b.Instrs {
+					rg, ok := in.(*ssa.Range)
+					if !ok || !loadsField(rg.X, "tagMacroNode", "args") {
+						continue
 					}
-				}
-				key := p.FuncName(f) + ":range args"
-				if next == nil || len(next.Block().Succs) != 2 {
-					r.Unk(key, p.InstrPos(in), "loop shape not recognised")
-					continue
-				}
-				var kex ssa.Value
-				for _, u := range refs(next) {
-					if ex, ok := u.(*ssa.Extract); ok && ex.Index == 1 {
-						kex = ex
+					found = true
+					var next *ssa.Next
+					for _, u := range refs(rg) {
+						if nx, ok := u.(*ssa.Next); ok {
+							next = nx
+						}
 					}
-				}
-				header := next.Block()
-				ok2 := kex != nil && MustPassFrom(header.Succs[0], 0, header.Instrs[0], func(x ssa.Instruction) bool {
-					mu, isMu := x.(*ssa.MapUpdate)
-					return isMu && mu.Key == kex
-				})
-				if ok2 {
-					r.OK(key, p.InstrPos(in), "every iteration stores an entry under the parameter's name (or returns an error)")
-				} else {
-					r.Bad(key, p.InstrPos(in), "a declared parameter can stay unbound (no entry stored for it on some path): an omitted parameter without default would resolve to a same-named outer variable instead of being empty")
+					key := p.FuncName(f) + ":range args"
+					if next == nil || len(next.Block().Succs) != 2 {
+						r.Unk(key, p.InstrPos(in), "loop shape not recognised")
+						continue
+					}
+					var kex ssa.Value
+					for _, u := range refs(next) {
+						if ex, ok := u.(*ssa.Extract); ok && ex.Index == 1 {
+							kex = ex
+						}
+					}
+					header := next.Block()
+					ok2 := kex != nil && MustPassFrom(header.Succs[0], 0, header.Instrs[0], func(x ssa.Instruction) bool {
+						mu, isMu := x.(*ssa.MapUpdate)
+						return isMu && mu.Key == kex
+					})
+					if ok2 {
+						r.OK(key, p.InstrPos(in), "every iteration stores an entry under the parameter's name (or returns an error)")
+					} else {
+						r.Bad(key, p.InstrPos(in), "a declared parameter can stay unbound (no entry stored for it on some path): an omitted parameter without default would resolve to a same-named outer variable instead of being empty")
+					}
 				}
 			}
 		}
 		if !found {
-			r.Bad(p.FuncName(f)+":range args", p.Pos(f.Pos()), "the macro body executor does not walk the declared parameters (tagMacroNode.args) to bind them")
+			r.Bad(p.FuncName(body)+":range args", p.Pos(body.Pos()), "the macro body executor does not walk the declared parameters (tagMacroNode.args) to bind them")
 		}
 	}
 
